@@ -237,6 +237,7 @@ def classify_corrupt(name, on_tt, exc, same, logged, value=""):
     local = name.split("}")[-1]
     if exc == "ZeroDivisionError" and local in ("frameRate", "frameRateMultiplier", "tickRate"): return "zero-rate-division"
     if exc in ("ValueError", "IndexError") and on_tt and local in TT_PARAMS: return "tt-parameter-abort"
+    if name == IC.q(IC.NS_TTS, "ruby"): return "bad-ruby-drops-span"      # also when the dropped span breaks its ruby container (logged error, or TypeError in a seq parent)
     if exc is not None: return None
     if local in ("begin", "end", "dur"): return "lax-value-syntax" if lax_time(value) else None
     if local in LAX_PARAMS and on_tt: return "lax-value-syntax" if lax_param(value) else None
